@@ -34,6 +34,17 @@ RULE += ("; wave 5 (props/bufstore.py, coq/theories/BufStore.v): buffer.rs at ST
 TRUSTED = TRUSTED + ["props/bufstore.Sim: offsets-only reference of BufferWindow (oracle bufstore-window / bufstore-position / bufstore-full)"]
 # <<< w_buf
 
+# >>> s_c05 (wave 6)
+RULE += ("; wave 6 (props/C05_size.py, audit/C05.md section Size dimensions): size ladders 0 1 2 3 7 8 9 15 16 17 31 32 33 63 64 65 127 128 129 255 256 257 "
+         "1023 1024 1025 4095 4096 4097 65533 65534 65535 65536, ONE dimension at a time on an otherwise small input (lengths of every token class, run "
+         "lengths of every significant byte class, counts of siblings / duplicates / ghosts / elements / operators / headers / parameter blocks, "
+         "nesting depth of every container kind below the depth where known finding I starts for that entry point, binary string lengths to 65535 "
+         "present / absent / one short, token ids, buffer sizes 0..40, 32767..32769, 65535..65540 with tokens that fit exactly / are one short / one "
+         "over, up to 32768 refills inside one token (below where known finding N starts in the debug profile), read-chunk sizes, length x alignment, "
+         "count x capacity of the binary token vector, writer payloads / depth / indent) through EVERY entry-point kind in release and debug; "
+         "oracle: a value or an error")
+# <<< s_c05
+
 # (kind template, needs) -- families register their byte-string entry points here
 TEXT_KINDS = ["tt.parse\t{h}", "tr.slice\t{h}", "tr.stream\t{cap}\t{sched}\t{h}", "tr.skip\t{cap}\t{sched}\t{h}\t{n}", "tr.skipuv\t{cap}\t{sched}\t{h}\t{n}",
               "tr.readbytes\t{cap}\t{sched}\t{h}\t{n}\t{nb}", "scalar.u64\t{h}", "scalar.i64\t{h}", "scalar.bool\t{h}",
@@ -123,6 +134,10 @@ def run(ctx):
     # >>> a_c05 (wave 4): inventory streams, see props/C05_inv.py and audit/C05.md
     C05_inv.run_inv(ctx)
     # <<<
+    # >>> s_c05 (wave 6): size / boundary ladders, one dimension at a time, every entry-point kind, both profiles (props/C05_size.py)
+    from props import C05_size
+    C05_size.run_size(ctx)
+    # <<< s_c05
     # >>> w_buf (wave 5): index-level safety of buffer.rs -- contract-respecting op lists on the real BufferWindow in both
     # build profiles (debug: every debug_assert! in front of the unsafe blocks is armed); see props/bufstore.py
     from props import bufstore
